@@ -152,6 +152,11 @@ class EnumSpec:
         }
 
 
+def _h(s):
+    import zlib
+    return zlib.crc32(s.encode())
+
+
 def ident_for(i):
     """A, B, …, Z, V26, V27 …"""
     if i < 26:
@@ -325,7 +330,7 @@ def instance_corpus(tier="quick", seed=1, reprs=None):
             cfgs.append("AUTO_NORANGE")
             if tier == "quick":
                 # every (repr, pattern) gets the table configuration; the other configurations rotate
-                pick = ["ALL_TABLE", cfgs[1 + (hash((r, pname)) % (len(cfgs) - 1))]]
+                pick = ["ALL_TABLE", cfgs[1 + (_h(r + pname) % (len(cfgs) - 1))]]
                 if pname in ("h_neg_later", "h_lo_start", "g_full", "h_300"):
                     pick = cfgs
             else:
